@@ -64,6 +64,11 @@ def completed(t):
     return TJ.find(t, 'mosromgrmeta') is not None
 
 
+def envelope_of(t):
+    """the root with the running-order element abstracted: what completion is about"""
+    return [t[0], t[1], t[2], t[3], [('roCreate' if c[0] == 'roCreate' else c) for c in t[4]]]
+
+
 def crash_kind(err):
     return 'crash' if (err or '').startswith('crash:') else ('lib' if err else None)
 
@@ -75,7 +80,7 @@ PROJ = {
     'C04': lambda o, before: (o['err'], o['ro']),
     'C05': lambda o, before: (bool(o['err']), o['ro'] == before),
     'C06': lambda o, before: (o['err'], o['warns'], story_ids(o['ro']), item_ids_all(o['ro'])),
-    'C07': lambda o, before: (o['err'] == 'MosCompletedMergeError', completed(o['ro']), o['ro']),
+    'C07': lambda o, before: (o['err'] == 'MosCompletedMergeError', completed(o['ro']), envelope_of(o['ro'])),
     'C12': lambda o, before: crash_kind(o['err']),
 }
 
